@@ -136,6 +136,22 @@ def run(ck):
             open(p, "w").write("template<class T> struct W { T t; };\n" + "W<" * depth + "int" + ">" * depth + " v;\n")
             jobs.append((p, [], ["-x", "c++", "-std=c++14", "-ftemplate-depth=2000"], "deep-template-%d" % depth, ""))
 
+        # literal macros: every character / string literal prefix x a narrow, a byte-sized, a wide and a non-ASCII value, multi-character
+        # constants, and numeric literals at the limits (found through a seeding agent's notes: `#define W L'\x1234'` aborted the run)
+        lits = []
+        for pre in ("", "L", "u", "U", "u8"):
+            for body in ("a", "\\xff", "\\x1234", "\u00e9", "\\0", "ab", "\\377", "\\U0001F600"):
+                lits.append("%s'%s'" % (pre, body))
+            for body in ("wide", "\u00e9t\u00e9", "a\\0b", "\\xff\\xfe", ""):
+                lits.append('%s"%s"' % (pre, body))
+        lits += ["18446744073709551615ULL", "0xFFFFFFFFFFFFFFFFFFFFULL", "1e400", "0x1p-1074", "1.0e-400f", "-9223372036854775807LL - 1", "'\\''", "1/0", "1%0", "(char)300", "~0u", "-1u"]
+        for li, lit in enumerate(lits):
+            for cxx in (False, True):
+                pth = os.path.join(tmp, "lit_%d%s" % (li, ".hpp" if cxx else ".h"))
+                text = "#define LIT_%d %s\n#define AFTER_%d 7\n" % (li, lit, li)
+                open(pth, "w").write(text)
+                jobs.append((pth, [], (["-x", "c++", "-std=c++17"] if cxx else ["-std=c11"]), "literal-macro", text))
+
         # type-constructor x element-type sweep: every way of building a type applied to every builtin element type clang knows
         # (accepted or not is decided per header by clang); C and C++ spellings, plus the same constructors over a template parameter
         elems_c = ["int", "unsigned char", "_Bool", "float", "double", "long double", "__int128", "unsigned __int128", "_Float16", "__fp16", "__bf16", "__float128",
